@@ -871,6 +871,11 @@ where
                 "Configuration changed"
             );
 
+            // send_buf is sized after max_packet_size: keep them in sync
+            if self.config.max_packet_size != config.max_packet_size {
+                self.send_buf = Vec::with_capacity(config.max_packet_size.get());
+            }
+
             self.config = config;
             Ok(())
         }
